@@ -13,7 +13,12 @@ Definition is_swhile (n : nat) (s : stmt) : bool := match s with SWhile c (Some 
 Definition is_sdo (n : nat) (s : stmt) : bool := match s with SDo b c => spure c && forallb (bsrc n) b | _ => false end.
 Definition wstop (n : nat) (s : stmt) : bool := stop n s || is_swhile n s || is_sdo n s.
 Definition wtopexprs (n : nat) (ts : tstmt) : list texpr :=
-  match ts with TWhile c (Some b) => c :: bexprs n b | TDo b c => c :: bexprs (S n) (TBlock b) | _ => topexprs n ts end.
+  match ts with
+  | TWhile c (Some b) => c :: bexprs n b
+  | TDo b c => c :: bexprs (S n) (TBlock b)
+  | TFor (Some (t, x, i)) (Some c) (Some nx) b => stexprs (TDecl t x i) ++ c :: bexprs 1 (TExpr nx) ++ bexprs n b
+  | _ => topexprs n ts
+  end.
 
 (** ** the constant table *)
 Section WTable.
@@ -86,16 +91,65 @@ Section WTable.
     - rewrite Hn5, Hc4. apply present_app. apply Hp2. exact Hy.
   Qed.
 
+  Lemma lower_f_table n t x i c nx b st st' :
+    simple (TDecl t x i) = true -> tpure c = true -> bstmt 1 (TExpr nx) = true -> bstmt n b = true -> linv st ->
+    lower_stmt structs gl args (TFor (Some (t, x, i)) (Some c) (Some nx) b) st = LOk st' ->
+    table_ok L (l_consts st) -> (forall y, In y (stexprs (TDecl t x i) ++ c :: bexprs 1 (TExpr nx) ++ bexprs n b) -> incl (tflits y) L) ->
+    tres_tab L st st' (stexprs (TDecl t x i) ++ c :: bexprs 1 (TExpr nx) ++ bexprs n b).
+  Proof.
+    intros Hd Hpc Hbn Hbb I H Ht Hin. rewrite lower_for_split in H.
+    destruct (lower_stmt structs gl args (TDecl t x i) st) as [st0| |] eqn:Ed; cbn [lbind] in H; try discriminate.
+    destruct (lower_simple_table structs gl args L (TDecl t x i) st st0 Hd I Ed Ht) as (I0 & Ht0 & (n0 & Hn0) & Hp0).
+    { intros y Hy. apply Hin. apply in_or_app. left. exact Hy. }
+    rewrite lower_for_unfold in H.
+    destruct (create_block st0) as [st1 startb] eqn:Esb.
+    destruct (lower_expr structs gl args c st1) as [[cv st2]| |] eqn:Ec; cbn [lbind] in H; try discriminate.
+    destruct (emit_branch st2 (Some cv) LNone LNone) as [st3 br] eqn:Eb.
+    destruct (create_block st3) as [st4 bodyb] eqn:Ebb.
+    destruct (lower_stmt structs gl args b (set_depth st4 (S (l_depth st4)))) as [st5| |] eqn:Et; cbn [lbind] in H; try discriminate.
+    destruct (create_block (set_depth st5 (l_depth st4))) as [st6 incb] eqn:Eib.
+    destruct (lower_stmt structs gl args (TExpr nx) st6) as [st6n| |] eqn:En; cbn [lbind] in H; try discriminate.
+    destruct (emit_branch st6n None (LRef startb) LNone) as [st7 jb] eqn:Ejb.
+    destruct (create_block st7) as [st8 endb] eqn:Eeb. inversion H; subst st'; clear H.
+    destruct (create_block_consts _ _ _ Esb I0) as [I1 Hc1].
+    destruct (lower_table structs gl args L c st1 cv st2 Hpc I1 Ec) as (I2 & Ht2 & (n2 & Hn2) & Hpi & Hpf); [rewrite Hc1; exact Ht0|apply Hin; apply in_or_app; right; left; reflexivity|].
+    destruct (emit_branch_consts _ _ _ _ _ _ Eb I2) as [I3 Hc3]. destruct (create_block_consts _ _ _ Ebb I3) as [I4 Hc4].
+    destruct (lower_b_table structs gl args L n b (set_depth st4 (S (l_depth st4))) st5 Hbb (linv_set_depth _ _ I4) Et) as (I5 & Ht5 & (n5 & Hn5) & Hp5).
+    { change (l_consts (set_depth st4 (S (l_depth st4)))) with (l_consts st4). rewrite Hc4, Hc3. exact Ht2. }
+    { intros y Hy. apply Hin. apply in_or_app. right. right. apply in_or_app. right. exact Hy. }
+    change (l_consts (set_depth st4 (S (l_depth st4)))) with (l_consts st4) in Hn5.
+    destruct (create_block_consts _ _ _ Eib (linv_set_depth _ _ I5)) as [I6 Hc6]. change (l_consts (set_depth st5 (l_depth st4))) with (l_consts st5) in Hc6.
+    destruct (lower_b_table structs gl args L 1 (TExpr nx) st6 st6n Hbn I6 En) as (I6n & Ht6n & (n6 & Hn6) & Hp6).
+    { rewrite Hc6. exact Ht5. }
+    { intros y Hy. apply Hin. apply in_or_app. right. right. apply in_or_app. left. exact Hy. }
+    destruct (emit_branch_consts _ _ _ _ _ _ Ejb I6n) as [I7 Hc7]. destruct (create_block_consts _ _ _ Eeb I7) as [I8 Hc8].
+    assert (Hfin : l_consts (patch (set_targets st8 br (Some (LRef bodyb)) (Some (LRef endb))) (l_depth st4) endb incb) = l_consts st6n) by (cbn; rewrite Hc8, Hc7; reflexivity).
+    assert (H52 : l_consts st5 = l_consts st2 ++ n5) by (rewrite Hn5, Hc4, Hc3; reflexivity).
+    assert (H62 : l_consts st6n = l_consts st5 ++ n6) by (rewrite Hn6, Hc6; reflexivity).
+    split.
+    { assert (I9 : linv (set_targets st8 br (Some (LRef bodyb)) (Some (LRef endb)))) by (apply set_targets_linv; exact I8).
+      destruct I9 as [J1 J2 J3]. constructor; cbn in *; [exact J1| |exact J3].
+      destruct J2 as [X|X]; [left; exact X|right]. intro Y. apply X. destruct (l_blocks st8); [reflexivity|discriminate]. }
+    rewrite Hfin. split; [exact Ht6n|]. split; [exists (n0 ++ n2 ++ n5 ++ n6); rewrite H62, H52, Hn2, Hc1, Hn0, <- !app_assoc; reflexivity|].
+    intros y Hy. apply in_app_or in Hy as [Hy|[<-|Hy]].
+    - rewrite H62, H52, Hn2, Hc1. rewrite <- !app_assoc. apply present_app. apply Hp0. exact Hy.
+    - rewrite H62, H52. rewrite <- app_assoc. apply present_app. split; assumption.
+    - apply in_app_or in Hy as [Hy|Hy]; [apply Hp6; exact Hy|rewrite H62; apply present_app; apply Hp5; exact Hy].
+  Qed.
+
   Lemma lower_wtop_table n s st st' : wtop_ok n s = true -> linv st -> lower_stmt structs gl args s st = LOk st' ->
     table_ok L (l_consts st) -> (forall x, In x (wtopexprs n s) -> incl (tflits x) L) -> tres_tab L st st' (wtopexprs n s).
   Proof.
     intros Hs I H Ht Hin. unfold wtop_ok in Hs. destruct (top_ok n s) eqn:Et.
-    - assert (E : wtopexprs n s = topexprs n s) by (destruct s as [| | | | | |c [b|]|b0 c0| |]; try reflexivity; unfold top_ok in Et; cbn in Et; destruct n; discriminate).
+    - assert (E : wtopexprs n s = topexprs n s)
+        by (destruct s as [| | | | |[[[t0 x0] i0]|] [c1|] [n1|] b1|c [b|]|b0 c0| |]; try reflexivity; unfold top_ok in Et; cbn in Et; destruct n; discriminate).
       rewrite E in *. apply (lower_top_table structs gl args L n s st st' Et I H Ht Hin).
-    - cbn [orb] in Hs. destruct s as [| | | | | |c [b|]|b0 c0| |]; try discriminate.
-      + cbn [is_while is_do orb] in Hs. rewrite orb_false_r in Hs. apply andb_prop in Hs as [Hpc Hbb].
+    - cbn [orb] in Hs. destruct s as [| | | | |[[[t0 x0] i0]|] [c1|] [n1|] b1|c [b|]|b0 c0| |]; try discriminate.
+      + cbn [is_while is_do is_for orb] in Hs. apply andb_prop in Hs as [Hs Hbb]. apply andb_prop in Hs as [Hs Hbn]. apply andb_prop in Hs as [Hd Hpc].
+        apply (lower_f_table n t0 x0 i0 c1 n1 b1 st st' Hd Hpc Hbn Hbb I H Ht Hin).
+      + cbn [is_while is_do is_for orb] in Hs. rewrite !orb_false_r in Hs. apply andb_prop in Hs as [Hpc Hbb].
         apply (lower_w_table n c b st st' Hpc Hbb I H Ht Hin).
-      + cbn [is_while is_do orb] in Hs. apply andb_prop in Hs as [Hpc Hbb].
+      + cbn [is_while is_do is_for orb] in Hs. rewrite orb_false_r in Hs. apply andb_prop in Hs as [Hpc Hbb].
         apply (lower_d_table n b0 c0 st st' Hpc Hbb I H Ht Hin).
   Qed.
 
@@ -211,13 +265,30 @@ Section WStatic.
             destruct f as [f0|]; [destruct (elab_stmt G e2 f0) as [q| |]; cbn [ebind] in He; try discriminate|cbn [ebind] in He]; discriminate.
   Qed.
 
+  Lemma stop_elab_not_for n s ts env env' : stop n s = true -> elab_stmt G env s = EOk (ts, env') -> forall a0 b0 c0 d0, ts <> TFor a0 b0 c0 d0.
+  Proof.
+    intros Est He.
+    intros a0 b0 c0 d0 E. subst ts. unfold stop in Est. destruct (ssimple s) eqn:Ess.
+        - destruct s as [t x i| e0 | | | | | | | |]; try discriminate.
+          + cbn [elab_stmt] in He. destruct i; cbn [elab_opt ebind] in He; [destruct (elab G COn (tdeclare env x t) e); cbn [ebind] in He; try discriminate; destruct (ty_eqb _ _); discriminate|discriminate].
+          + cbn [elab_stmt ebind] in He. destruct (elab G COn env e0); cbn [ebind] in He; discriminate.
+        - cbn in Est. pose proof (bsrc_nonsimple G n s _ env env' Ess Est He) as X. destruct n as [|n']; [discriminate|].
+          destruct s as [| e0 | l | | c1 t f | | | | |]; cbn [bsrc] in Est; try discriminate.
+          + destruct e0 as [| | | |o l0 r0| | | | | |]; try discriminate. destruct l0; try discriminate. rewrite Ess in Est. discriminate.
+          + rewrite elab_block_unfold in He. destruct (elab_body G ([] :: env) l); cbn [ebind] in He; discriminate.
+          + rewrite elab_if_unfold in He. cbv zeta in He. destruct (elab G COn ([] :: env) c1); cbn [ebind] in He; try discriminate.
+            destruct (elab_stmt G ([] :: env) t) as [[t' e2]| |]; cbn [ebind] in He; try discriminate.
+            destruct f as [f0|]; [destruct (elab_stmt G e2 f0) as [q| |]; cbn [ebind] in He; try discriminate|cbn [ebind] in He]; discriminate.
+  Qed.
+
   Lemma wtop_stmt_static n s ts env env' : env_num env -> wstop n s = true -> elab_stmt G env s = EOk (ts, env') -> wtnonan n ts ->
     wtop_ok n ts = true /\ env_num env'.
   Proof.
     intros Hn Hs He Hnan. unfold wstop in Hs. destruct (stop n s) eqn:Est.
     - pose proof (stop_elab_not_while n s ts env env' Est He) as Hnw. pose proof (stop_elab_not_do n s ts env env' Est He) as Hnd.
+      pose proof (stop_elab_not_for n s ts env env' Est He) as Hnf.
       assert (E : wtopexprs n ts = topexprs n ts)
-        by (destruct ts as [| | | | | |c0 [b0|]|b0 c0| |]; try reflexivity; exfalso; [apply (Hnw c0 b0)|apply (Hnd b0 c0)]; reflexivity).
+        by (destruct ts as [| | | | |a1 b1 c1 d1|c0 [b0|]|b0 c0| |]; try reflexivity; exfalso; [apply (Hnf a1 b1 c1 d1)|apply (Hnw c0 b0)|apply (Hnd b0 c0)]; reflexivity).
       destruct (top_stmt_static G n s ts env env' Hn Est He) as [Hok Hn']; [unfold wtnonan in Hnan; rewrite E in Hnan; exact Hnan|].
       split; [unfold wtop_ok; rewrite Hok; reflexivity|exact Hn'].
     - cbn [orb] in Hs. destruct s as [| | | | | |c [b|]|b c| |]; try discriminate.
@@ -225,13 +296,13 @@ Section WStatic.
         destruct (while_elab_inv n env c b ts env' Hpc Hbb Hn He) as (c' & b' & -> & -> & Eb & Ec & Hbs).
         { intros b' Eb x Hx f Hf. rewrite elab_while_unfold in He. cbn zeta in He. rewrite Eb in He. cbn [ebind fst snd] in He.
           destruct (elab G COn ([] :: env) c) as [c'| |]; cbn [ebind] in He; try discriminate. inversion He; subst ts. apply (Hnan x); [right; exact Hx|exact Hf]. }
-        split; [|exact Hn]. unfold wtop_ok. cbn [is_while is_do]. rewrite Hbs, andb_true_r, orb_false_r.
+        split; [|exact Hn]. unfold wtop_ok. cbn [is_while is_do is_for]. rewrite Hbs, andb_true_r, !orb_false_r.
         rewrite (elab_tpure_static G ([] :: env) (env_num_push env Hn) c c' Hpc Ec); [apply orb_true_r|]. intros f Hf. apply (Hnan c'); [left; reflexivity|exact Hf].
       + cbn [is_swhile is_sdo orb] in Hs. apply andb_prop in Hs as [Hpc Hbb].
         destruct (do_elab_inv n env b c ts env' Hpc Hbb Hn He) as (b' & c' & -> & -> & Eb & Ec & Hbs).
         { intros b' Eb x Hx f Hf. rewrite elab_do_unfold in He. cbn zeta in He. rewrite Eb in He. cbn [ebind] in He.
           destruct (elab G COn ([] :: env) c) as [c'| |]; cbn [ebind] in He; try discriminate. inversion He; subst ts. apply (Hnan x); [right; exact Hx|exact Hf]. }
-        split; [|exact Hn]. unfold wtop_ok. cbn [is_while is_do]. rewrite Hbs, andb_true_r.
+        split; [|exact Hn]. unfold wtop_ok. cbn [is_while is_do is_for]. rewrite Hbs, andb_true_r, orb_false_r.
         rewrite (elab_tpure_static G ([] :: env) (env_num_push env Hn) c c' Hpc Ec); [apply orb_true_r|]. intros f Hf. apply (Hnan c'); [left; reflexivity|exact Hf].
   Qed.
 
@@ -268,7 +339,10 @@ Section WSrc.
 
   Lemma wtopexec_mono n ts : forall k locals V A vs r, wtopexec structs gl args n k cs locals ts V A vs = Some r -> forall k', k <= k' -> wtopexec structs gl args n k' cs locals ts V A vs = Some r.
   Proof.
-    intros k locals V A vs r H k' Hle. destruct ts as [| | | | | |c [b|]|b c| |]; try exact H; cbn [wtopexec] in *.
+    intros k locals V A vs r H k' Hle. destruct ts as [| | | | |[[[t0 x0] i0]|] [c1|] [n1|] b1|c [b|]|b c| |]; try exact H; cbn [wtopexec] in *.
+    - unfold forspec in *. destruct (topexec structs gl args n cs locals (TDecl t0 x0 i0) V A vs) as [[[[l1 V1] A1] vs1]|]; [|discriminate].
+      unfold fspec in *. destruct (floop structs gl args n k cs l1 c1 n1 b1 V1 A1 vs1) as [[[V2 A2] vs2]|] eqn:E; [|discriminate].
+      rewrite (floop_mono structs gl args n cs l1 c1 n1 b1 k V1 A1 vs1 _ E k' Hle). exact H.
     - unfold wspec in *. destruct (wloop structs gl args n k cs locals c b V A vs) as [[[V1 A1] vs1]|] eqn:E; [|discriminate].
       rewrite (wloop_mono structs gl args n cs locals c b k V A vs _ E k' Hle). exact H.
     - unfold dspec in *. destruct (dloop structs gl args n k cs locals b c V A vs) as [[[V1 A1] vs1]|] eqn:E; [|discriminate].
@@ -289,10 +363,11 @@ Section WSrc.
   Proof.
     intros Hs He Hg Hfr Hex Hag. unfold wstop in Hs. destruct (stop n s) eqn:Est.
     - pose proof (stop_elab_not_while G n s ts env env' Est He) as Hnw. pose proof (stop_elab_not_do G n s ts env env' Est He) as Hnd.
+      pose proof (stop_elab_not_for G n s ts env env' Est He) as Hnf.
       assert (E : wtopexprs n ts = topexprs n ts)
-        by (destruct ts as [| | | | | |c0 [b0|]|b0 c0| |]; try reflexivity; exfalso; [apply (Hnw c0 b0)|apply (Hnd b0 c0)]; reflexivity).
+        by (destruct ts as [| | | | |a1 b1 c1 d1|c0 [b0|]|b0 c0| |]; try reflexivity; exfalso; [apply (Hnf a1 b1 c1 d1)|apply (Hnw c0 b0)|apply (Hnd b0 c0)]; reflexivity).
       assert (Ex : wtopexec structs gl args n fuel cs locals ts V A vs = topexec structs gl args n cs locals ts V A vs)
-        by (destruct ts as [| | | | | |c0 [b0|]|b0 c0| |]; try reflexivity; exfalso; [apply (Hnw c0 b0)|apply (Hnd b0 c0)]; reflexivity).
+        by (destruct ts as [| | | | |a1 b1 c1 d1|c0 [b0|]|b0 c0| |]; try reflexivity; exfalso; [apply (Hnf a1 b1 c1 d1)|apply (Hnw c0 b0)|apply (Hnd b0 c0)]; reflexivity).
       rewrite Ex. apply (top_stmt_preserved M G structs gl args cs n s ts env env' fuel st fl st1 locals V A vs Est He); try assumption.
       unfold tgood. unfold wtgood in Hg. rewrite E in Hg. exact Hg.
     - cbn [orb] in Hs. destruct s as [| | | | | |c [b|]|b c| |]; try discriminate.
